@@ -33,12 +33,12 @@ theorem subRel_fad {m r b : Bytes} (hb : PushPat b) (h : SubRel m r) :
 theorem msDropSigs_sim (st : St) (isig : Int) (hel : ∀ x ∈ st.stack, x.length < 2 ^ 32) :
     ∀ (n k : Nat) (m r : Bytes), SubRel m r → (rawIter m).2 = none → 1 ≤ isig + k →
       isig + k + n ≤ st.stack.length + 1 →
-      ∃ m', msDropSigs st isig n k m = .ok m' ∧ (rawIter m').2 = none ∧
+      ∃ m', msDropSigs st isig n k m = .ok m' ∧ (rawIter m').2 = none ∧ m'.length ≤ m.length ∧
         SubRel m' (((st.stack.drop (isig + k - 1).toNat).take n).foldl
           (fun sc sig => Ref.findAndDelete sc (Ref.pushEnc sig)) r) := by
   intro n
   induction n with
-  | zero => intro k m r hrel hp _ _; exact ⟨m, rfl, hp, by simpa using hrel⟩
+  | zero => intro k m r hrel hp _ _; exact ⟨m, rfl, hp, Nat.le_refl _, by simpa using hrel⟩
   | succ n ih =>
     intro k m r hrel hp h1 h2
     have hlt : (isig + k - 1).toNat < st.stack.length := by omega
@@ -50,14 +50,15 @@ theorem msDropSigs_sim (st : St) (isig : Int) (hel : ∀ x ∈ st.stack, x.lengt
     have hnext := ih (k + 1) (Ref.findAndDelete m (Ref.pushEnc st.stack[(isig + k - 1).toNat]))
       (Ref.findAndDelete r (Ref.pushEnc st.stack[(isig + k - 1).toNat])) (subRel_fad hpat hrel)
       (findAndDelete_parses m _ hpat hp) (by omega) (by omega)
-    obtain ⟨m', hm1, hm2, hm3⟩ := hnext
-    refine ⟨m', ?_, hm2, ?_⟩
+    obtain ⟨m', hm1, hm2, hml, hm3⟩ := hnext
+    refine ⟨m', ?_, hm2, ?_, ?_⟩
     · simp only [msDropSigs, hget, pyIdx, encodeOpPushdata_eq _ hxl, hfad, bind, Except.bind]
       exact hm1
+    · have := ref_findAndDelete_length_le m (Ref.pushEnc st.stack[(isig + k - 1).toNat]); omega
     · rw [take_drop_cons st.stack _ (n + 1) hlt (by omega)]
       simp only [List.foldl_cons, Nat.add_sub_cancel]
-      have hidx : (isig + ((k + 1 : Nat) : Int) - 1).toNat = (isig + k - 1).toNat + 1 := by omega
-      rw [hidx] at hm3
+      have hsh : (isig + ((k + 1 : Nat) : Int) - 1).toNat = (isig + k - 1).toNat + 1 := by omega
+      rw [hsh] at hm3
       exact hm3
 
 theorem length_take_drop {α} (s : List α) (i n : Nat) (h : i + n ≤ s.length) :
@@ -65,9 +66,9 @@ theorem length_take_drop {α} (s : List α) (i n : Nat) (h : i + n ≤ s.length)
   simp only [List.length_take, List.length_drop]; omega
 
 /-- the `while success and sigs_count > 0` loop against the reference's list recursion -/
-theorem msLoop_sim (c : Ctx) (sop : Nat) (script' code' : Bytes) (st : St) (hidx : 0 ≤ c.inIdx)
+theorem msLoop_sim (c : Ctx) (sop : Nat) (script' code' : Bytes) (st : St) (hsh : SigHashOK c)
     (hcs : CodesepInsensitive c.env) (hrel : SubRel script' code') (hparse : (rawIter script').2 = none)
-    (m : Nat) :
+    (hlen' : script'.length ≤ MAX_SCRIPT_SIZE) (m : Nat) :
     ∀ (isig sigs ikey keys : Int), keys.toNat = m → 1 ≤ sigs → sigs ≤ keys → 1 ≤ isig → 1 ≤ ikey →
       isig + sigs ≤ st.stack.length + 1 → ikey + keys ≤ st.stack.length + 1 →
       msLoop c sop script' st isig sigs ikey keys =
@@ -83,7 +84,7 @@ theorem msLoop_sim (c : Ctx) (sop : Nat) (script' code' : Bytes) (st : St) (hidx
     have hsig := getTop?_getElem st.stack isig hi1 (by omega)
     have hkey := getTop?_getElem st.stack ikey hk1 (by omega)
     have hck := checkSig_sim c st.cap st.stack[(isig - 1).toNat] st.stack[(ikey - 1).toNat] script' code'
-      hidx hcs hrel hparse
+      hsh hcs hrel hparse hlen'
     have hsl := take_drop_cons st.stack (isig - 1).toNat sigs.toNat hil (by omega)
     have hkl' := take_drop_cons st.stack (ikey - 1).toNat keys.toNat hkl (by omega)
     have hSlen := length_take_drop st.stack ((isig - 1).toNat + 1) (sigs.toNat - 1) (by omega)
@@ -159,9 +160,9 @@ theorem msDropSigs_invalid (st : St) (isig : Int) (n k : Nat) (m : Bytes)
   simp only [msDropSigs, hget, pyIdx, encodeOpPushdata_eq _ hxl, hfad, bind, Except.bind]
 
 theorem multisig_sim (c : Ctx) (fl : Flags) (script code : Bytes) (st : St) (sop : Nat)
-    (hs : sop = 0xae ∨ sop = 0xaf) (hidx : 0 ≤ c.inIdx) (hcs : CodesepInsensitive c.env)
+    (hs : sop = 0xae ∨ sop = 0xaf) (hsh : SigHashOK c) (hcs : CodesepInsensitive c.env)
     (hel : ∀ x ∈ st.stack, x.length < 2 ^ 32) (hcode : CodeRel script st.pbegin code)
-    (hnop : st.nOpCount ≤ MAX_OPS_PER_SCRIPT) :
+    (hnop : st.nOpCount ≤ MAX_OPS_PER_SCRIPT) (hsl : script.length ≤ MAX_SCRIPT_SIZE) :
     SimT ((rawIter (script.drop st.pbegin)).2.isSome) code st
       (checkMultiSig c fl sop (script.drop st.pbegin) st)
       (Ref.opCheckMultiSig c.env fl (decide (sop = 0xaf)) (toRef st code)) := by
@@ -280,10 +281,12 @@ theorem multisig_sim (c : Ctx) (fl : Flags) (script code : Bytes) (st : St) (sop
                 rcases hcode with ⟨rfl, rfl⟩ | h
                 · left; simp
                 · right; exact h
-              obtain ⟨m', hm1, hm2, hm3⟩ := msDropSigs_sim ⟨kv :: s1, al, vf, pb, n + keys.toNat⟩ (2 + keys + 1) hel
+              obtain ⟨m', hm1, hm2, hml, hm3⟩ := msDropSigs_sim ⟨kv :: s1, al, vf, pb, n + keys.toNat⟩ (2 + keys + 1) hel
                 sigs.toNat 0 (script.drop pb) code hsub htl (by omega)
                 (by simp only [hst, List.length_cons] at hl2 ⊢; omega)
-              have hloop := msLoop_sim c sop m' _ ⟨kv :: s1, al, vf, pb, n + keys.toNat⟩ hidx hcs hm3 hm2 keys.toNat
+              have hml' : m'.length ≤ MAX_SCRIPT_SIZE := by
+                simp only [List.length_drop] at hml; omega
+              have hloop := msLoop_sim c sop m' _ ⟨kv :: s1, al, vf, pb, n + keys.toNat⟩ hsh hcs hm3 hm2 hml' keys.toNat
                 (2 + keys + 1) sigs 2 keys rfl (by omega) (by omega) (by omega) (by omega)
                 (by simp only [hst, List.length_cons] at hl2 ⊢; omega)
                 (by simp only [hst, List.length_cons] at hlen ⊢; omega)
